@@ -151,6 +151,17 @@ package xmlenc
 //@ ensures[C10] reg_oaep_sha512: registered(OAEP_SHA512().algorithm)
 //@ ensures[C10] keysizes: AES128CBC.(CBC).keySize == 16 && AES192CBC.(CBC).keySize == 24 && AES256CBC.(CBC).keySize == 32 &&
 //@    AES128GCM.(GCM).keySize == 16 && TripleDES.(CBC).keySize == 24
+//@ -- the digest table: each identifier is paired with the hash it names (interoperation: the peer picks the hash by identifier)
+//@ import sha1 "crypto/sha1"
+//@ import sha256 "crypto/sha256"
+//@ import sha512 "crypto/sha512"
+//@ import ripemd160 "golang.org/x/crypto/ripemd160"
+//@ go func sameFunc(a, b func() hash.Hash) bool
+//@ ensures[C10] digest_table:
+//@    SHA1.algorithm == "http://www.w3.org/2000/09/xmldsig#sha1" && sameFunc(SHA1.hash, sha1.New) &&
+//@    SHA256.algorithm == "http://www.w3.org/2000/09/xmldsig#sha256" && sameFunc(SHA256.hash, sha256.New) &&
+//@    SHA512.algorithm == "http://www.w3.org/2000/09/xmldsig#sha512" && sameFunc(SHA512.hash, sha512.New) &&
+//@    RIPEMD160.algorithm == "http://www.w3.org/2000/09/xmldsig#ripemd160" && sameFunc(RIPEMD160.hash, ripemd160.New)
 //@ ensures[C10] digests: digestMethods[SHA1.algorithm] != nil && digestMethods[SHA256.algorithm] != nil &&
 //@    digestMethods[SHA512.algorithm] != nil && digestMethods[RIPEMD160.algorithm] != nil
 
